@@ -23,7 +23,7 @@ STUB = ['transport/reactor (txsim.core)', 'Tor: control server with configuratio
 
 PROBES = {
     'C10': ['edit-between-save-and-ack', 'rejected-save', 'rejected-save-then-edit', 'overlapping-saves', 'save-nothing-pending',
-            'list-append', 'list-extend', 'list-insert', 'list-remove', 'list-pop', 'list-setitem', 'list-emptied', 'inplace-edit-of-inflight-option',
+            'list-append', 'list-extend', 'list-insert', 'list-append-pop', 'list-remove', 'list-pop', 'list-setitem', 'list-emptied', 'inplace-edit-of-inflight-option',
             'assign-scalar', 'assign-list', 'assign-live-list-of-another-option', 'random-case-name', 'quiet-point-checked', 'segmented-delivery'],
     'C11': ['defaults-absent', 'defaults-empty', 'defaults-many', 'option-unset-with-default', 'option-unset-no-default',
             'conf-changed-0-values', 'conf-changed-1-value', 'conf-changed-many-values', 'read-edit-save-after-conf-changed',
@@ -279,7 +279,8 @@ class ConfigRun(object):
 
     def on_setconf_applied(self, items, changed):
         # Tor writes the 250 first; the CONF_CHANGED event is queued and flushed afterwards
-        self.pending_echo.append(list(changed))
+        if changed:
+            self.pending_echo.append(list(changed))
 
     def tor_actions(self):
         acts = []
@@ -299,6 +300,8 @@ class ConfigRun(object):
             else:
                 for v in co.values:
                     lines.append('%s=%s' % (co.name, v))
+        for co in changed:
+            self.view_unspecified.discard(co.name.lower())
         if self.tor.emit('CONF_CHANGED', '', lines, form='multi'):
             self.events.append((self.tor.sent, set(co.name.lower() for co in changed)))
 
@@ -427,6 +430,8 @@ class ConfigRun(object):
             sim.fail(self.prop + '.pending-list-edits-lost', 'option %s has unsaved in-place edits (%r) but now reads %r' % (o.name, o.local, lst))
         mirror = o.local
         ops = ['append', 'extend', 'insert']
+        if not self.in_flight_option(o) and mirror:
+            ops.append('append-pop')    # (while the option is in flight, whether a cancelling edit is "pending" is not prescribed)
         if mirror:
             ops += ['remove', 'pop', 'setitem']
         if any(str(x) == 'DEFAULT' for x in lst):
@@ -440,6 +445,11 @@ class ConfigRun(object):
         if op == 'append':
             lst.append(tag)
             mirror.append(tag)
+        elif op == 'append-pop':
+            # two edits that cancel out: the option is pending, its save changes nothing at Tor (so Tor announces
+            # nothing and the same list object stays in the view)
+            lst.append(tag)
+            lst.pop()
         elif op == 'extend':
             lst.extend([tag, tag + '1'])
             mirror.extend([tag, tag + '1'])
@@ -526,6 +536,7 @@ class ConfigRun(object):
             if exp.get('rejected'):
                 self.sim.fail(self.prop + '.rejected-save-succeeded', 'Tor rejected the SETCONF but save() succeeded')
             for lname, (ver, val) in exp['snapshot'].items():
+                self.view_unspecified.discard(lname)
                 o = self.opts[lname]
                 if (o.version == ver or self.canon(o) == val) and lname in self.unacked:
                     self.unacked.remove(lname)
@@ -533,6 +544,9 @@ class ConfigRun(object):
             self.had_reject = False
         else:
             self.had_reject = True
+            # save() stores the values it sends in the view before Tor answers; after a rejection what such an
+            # option reads as is not prescribed (Appendix A.5) until Tor announces it or a later save carries it
+            self.view_unspecified.update(exp['snapshot'])
 
     def op_second_controller_early(self):
         self.early_changes_left -= 1
@@ -581,7 +595,7 @@ class ConfigRun(object):
             sim.fail(prop + '.needs-save-after-ack', 'needs_save() is True although every change was acknowledged')
         for o in self.order:
             lname = o.name.lower()
-            if lname in self.unacked:
+            if lname in self.unacked or lname in self.view_unspecified:
                 continue
             want = ref_parse(o.typ, o.co.values, o.default)
             try:
@@ -640,6 +654,7 @@ class ConfigRun(object):
         from txtorcon.torcontrolprotocol import TorControlProtocol
         from txtorcon.torconfig import TorConfig
         sim, ch = self.sim, self.ch
+        self.view_unspecified = set()
         self.had_reject = False
         self.edit_during_flight_seen = False
         self.pending_echo = []
